@@ -121,7 +121,14 @@ def run(rep: Report, repo: Repo):
     rep.exhaustive = True
     rep.trusted = ['family oracle in checks/c19.py stands in for the vendor datasheets', 'LUT constants as decided by C01']
     rep.assumptions = ['cells outside the stated families (tri-state, isolation, decoders, clock gates, ties, sequential, fillers) get the pin/resolution rules only']
-    tmod, ctor, facts = techdsl.constructor_facts(repo)
+    try:
+        tmod, ctor, facts = techdsl.constructor_facts(repo)
+    except ModelError:
+        # the constructor is not written in the recognised idiom: the library texts are then read by the documented cell syntax
+        # (the evaluated constructor rule below decides whether the constructor agrees with that syntax)
+        tmod = repo.mod('techlib')
+        ctor = tmod.func('TechLib.__init__')
+        facts = None
     _, libs = techdsl.library_sources(repo)
     luts, _ = simtab.luts(repo)
     rows, _ = simtab.kind_prefixes(repo)
@@ -132,7 +139,13 @@ def run(rep: Report, repo: Repo):
         raise ModelError('bench.GRAMMAR changed: the static DSL reader mirrors `NAME: /[-_a-z0-9]+/i` and `assignment: NAME "=" NAME parameters`')
 
     rep.rule('C19.ctor', 'TechLib.__init__: splits cells, strips, separates name from body at the first blank, numbers inputs and outputs with separate counters in io_nodes order, expands {a,b} alternatives by product')
-    check_ctor(rep, tmod, ctor, facts)
+    evaluated = ctor_evaluated(rep, repo, tmod, ctor)
+    if facts is None:
+        if not evaluated:
+            raise ModelError('TechLib.__init__: neither the recognised idiom nor within the evaluator subset (library reader cannot mirror the constructor)')
+        facts = {'split_cells': r';\s+', 'strip': (r'^\s+', ''), 'name_sep': ' ', 'split_braces': r'({[^}]+})'}
+    elif not evaluated:
+        check_ctor(rep, tmod, ctor, facts)
 
     rep.rule('C19.pins', 'each pin declared once; every output assigned exactly once; no input assigned; every operand is an input or an assigned signal; no cycle')
     rep.rule('C19.expand', 'brace expansion yields unique cell names within a library')
@@ -223,6 +236,78 @@ def run(rep: Report, repo: Repo):
     rep.note(f'{ndefs} definitions, {nclass} classified; unclassified: {len(set(unclassified))}')
 
 
+def ctor_evaluated(rep, repo, tmod, f):
+    """TechLib.__init__ evaluated (Engine M) on the five library texts (constants of the source), with bench.parse replaced by a
+    stand-in built from an independent reading of the cell body: the resulting name -> (implementation, pin table) dictionary must be
+    what the cell syntax says. Returns False if the constructor is outside the evaluator subset."""
+    from kvstatic import minieval
+    _, libs = techdsl.library_sources(repo)
+
+    def read_body(body):
+        cd = techdsl.CellDef('?', '', body, '')
+        techdsl.parse_bench_body(cd)
+        return cd
+
+    def stand_in(body):
+        cd = read_body(body)
+        driven = {t for t, _k, _a in cd.assigns}
+        reads = Counter(a for _t, _k, args in cd.assigns for a in args)
+        nodes = []
+        for d, nm in cd.decl:
+            nodes.append(minieval.NS(name=nm, ins=([] if (d == 'input' or nm not in driven) else ['drv']), outs=['r'] * reads.get(nm, 0)))
+        c = minieval.NS(io_nodes=nodes, name=None, body=body)
+        c.eliminate_1to1_forks = minieval.stub(lambda: None)
+        return c
+    bad = None
+    ntot = 0
+    try:
+        for lib, text, _node in libs:
+            me = minieval.NS()
+            env = {'bench': minieval.NS(parse=minieval.stub(stand_in))}
+            minieval.call_function(f, [me, text], env)
+            got = getattr(me, 'cells', None)
+            if not isinstance(got, dict):
+                raise ModelError('TechLib.__init__ does not build self.cells')
+            want = {}
+            for chunk in re.split(r';\s+', text):
+                st = re.sub(r'^\s+', '', chunk)
+                k = st.find(' ')
+                if k <= 0:
+                    continue
+                raw, body = st[:k], st[k:]
+                cd = read_body(body)
+                pins, i_idx, o_idx = {}, 0, 0
+                driven = {t for t, _k, _a in cd.assigns}
+                for d, nm in cd.decl:
+                    if d == 'input' or nm not in driven:
+                        pins[nm] = (i_idx, False)
+                        i_idx += 1
+                    else:
+                        pins[nm] = (o_idx, True)
+                        o_idx += 1
+                parts = [x[1:-1].split(',') if x[0] == '{' else [x] for x in re.split(r'({[^}]+})', raw) if len(x) > 0]
+                import itertools
+                for item in itertools.product(*parts):
+                    want[''.join(item)] = (body.strip(), pins)
+            ntot += len(want)
+            gotn = {k: (getattr(v[0], 'body', '?').strip(), dict(v[1])) for k, v in got.items() if isinstance(v, tuple) and len(v) == 2}
+            if gotn != want and bad is None:
+                missing = sorted(set(want) - set(gotn))[:5]
+                extra = sorted(set(gotn) - set(want))[:5]
+                diff = [k for k in want if k in gotn and gotn[k] != want[k]][:3]
+                bad = (lib, missing, extra, [(k, gotn[k][1], want[k][1]) for k in diff])
+    except ModelError as e:
+        rep.note(f'C19.ctor: TechLib.__init__ outside the evaluator subset ({e}); structural rules used')
+        return False
+    ok = bad is None
+    rep.ob('C19.ctor', f'TechLib.__init__ evaluated on the library texts: {ntot} names with their pin tables', ok, evals=ntot)
+    if not ok:
+        rep.violate('C19.ctor', tmod, f, 'name -> (implementation, pin table)', f'TechLib.__init__: for library {bad[0]} the constructor does not produce the documented table: '
+                    f'names missing {bad[1]}, names not in the library text {bad[2]}, pin tables differing (name, built, documented) {bad[3]}: every name of the text expands to one '
+                    f'definition and every declared pin is listed exactly once, inputs and outputs numbered separately in declaration order', node=f)
+    return True
+
+
 def check_ctor(rep, tmod, f, facts):
     def rx(p):
         return str(re._parser.parse(p))
@@ -303,6 +388,13 @@ def check_ctor(rep, tmod, f, facts):
     rep.ob('C19.ctor', 'self.cells[name] = (c, pin_dict)', ok)
     if not ok:
         rep.violate('C19.ctor', tmod, f, st[0] if st else 'self.cells[name]', 'every expanded name must map to (implementation circuit, pin table)', node=f)
+
+
+def depends(rep, repo):
+    """"Primitive selection by kind prefix" (sim.py) is the mechanism that gives a library cell its function: the evaluated
+    node -> op translation rule of C01 (C01.wiring, includes constants and tie cells) is part of this check."""
+    from checks import c01
+    c01.wiring_rules(rep, repo)
 
 
 def thorough(rep, repo):
